@@ -272,7 +272,10 @@ fn run_prog(tlk: &str, fam: &str, segs: &str) -> String {
 /// lines: `;`-joined  X<hex> (text line) | S<hex indent>.<hex trail> (statement line, alternating
 /// if t / endif) | K<hex indent>.<hex comment text> (comment line) | Z<hex text>.<hex comment> (text
 /// with a trailing line comment); nl in n|rn|r ; a final `!` item = no newline after the last line.
+/// U+0001 inside a text stands for the family's variable tag `{{ v }}`.
 fn line_sources(f: &Fam, nl: &str, lines: &str) -> (String, String) {
+    let vtag = format!("{} v {}", f.vs(), f.ve());
+    let unhexs = |h: &str| unhexs(h).replace('\u{1}', &vtag);
     let nl = match nl {
         "n" => "\n",
         "rn" => "\r\n",
@@ -301,16 +304,18 @@ fn line_sources(f: &Fam, nl: &str, lines: &str) -> (String, String) {
                 let w = if nblock % 2 == 0 { "if t" } else { "endif" };
                 nblock += 1;
                 a.push_str(&format!("{}{} {}{}{}", unhexs(ind), f.ls(), w, unhexs(trail), this_nl));
-                b.push_str(&format!("{}+ {} +{}", f.bs(), w, f.be()));
+                // the block tag on a line of its own (blanks after a line statement belong to it)
+                b.push_str(&format!("{}{} {} {}{}", unhexs(ind), f.bs(), w, f.be(), this_nl));
             }
             b'K' => {
                 let (ind, c) = body.split_once('.').unwrap();
                 a.push_str(&format!("{}{}{}{}", unhexs(ind), f.lc(), unhexs(c), this_nl));
+                b.push_str(&format!("{}{}{} {}{}", unhexs(ind), f.cs(), unhexs(c), f.ce(), this_nl));
             }
             b'Z' => {
                 let (t, c) = body.split_once('.').unwrap();
                 a.push_str(&format!("{}{}{}{}", unhexs(t), f.lc(), unhexs(c), this_nl));
-                b.push_str(&unhexs(t));
+                b.push_str(&format!("{}{}{} {}{}", unhexs(t), f.cs(), unhexs(c), f.ce(), this_nl));
             }
             _ => panic!("bad line item"),
         }
@@ -326,7 +331,12 @@ fn run_line(tlk: &str, fam: &str, nl: &str, lines: &str) -> String {
         None => return format!("line {} {} {} {}\tsrc=\tout=badcfg\teq=badcfg", tlk, fam, nl, lines),
     };
     let out = render(&env, &a);
-    let eq = render(&env, &b);
+    // the tag form is rendered with trim_blocks and lstrip_blocks on: each tag occupies its line
+    let tlk_eq = format!("11{}", &tlk[2..3]);
+    let eq = match mk_env(&tlk_eq, &f) {
+        Some(e) => render(&e, &b),
+        None => "badcfg".into(),
+    };
     let tok = lex(tlk, &f, &a);
     format!("line {} {} {} {}\tsrc={}\ttok={}\tout={}\teq={}", tlk, fam, nl, lines, hexs(&a), tok, out, eq)
 }
@@ -393,6 +403,12 @@ fn is_free(f: &Fam, segs: &str) -> bool {
         };
         tags.push((src.len(), own.to_string()));
         src.push_str(&item_src(f, it, &mut nblock));
+        if c[0] == 'G' && c[1] == 'c' {
+            let body = format!("{}{}", unhexs(&it[4..]), mk(c[3]));
+            if body.contains(f.ce()) {
+                return false;
+            }
+        }
         if c[0] == 'R' {
             let content = unhexs(&it[5..]);
             let probe = format!("{}{}", content, f.bs());
@@ -774,8 +790,8 @@ fn gen_line(out: &mut impl Write, tier: &str, rng: &mut Rng) {
     let n = if tier == "thorough" { 40_000 } else { 4_000 };
     let indents = ["", " ", "  ", "\t", " \t "];
     let trails = ["", " ", "  ", "\t"];
-    let texts = ["", "a", "  b", "c  ", " ", "x # y", "{{ v }}", "z{{ v }} ", "q%", "<p>"];
-    let comments = ["", " note", " {{ v }}", " # if t", "x"];
+    let texts = ["", "a", "  b", "c  ", " ", "x # y", "\u{1}", "z\u{1} ", "q%", "<p>"];
+    let comments = ["", " note", " {{ x", " # if t", "x"];
     for _ in 0..n {
         let f = rng.pick(&fams).clone();
         let nlines = 1 + rng.below(5);
@@ -785,7 +801,7 @@ fn gen_line(out: &mut impl Write, tier: &str, rng: &mut Rng) {
                 0 | 1 | 2 => items.push(format!("X{}", hexs(pk(rng, &texts)))),
                 3 | 4 | 5 => items.push(format!("S{}.{}", hexs(pk(rng, &indents)), hexs(pk(rng, &trails)))),
                 6 => items.push(format!("K{}.{}", hexs(pk(rng, &indents)), hexs(pk(rng, &comments)))),
-                _ => items.push(format!("Z{}.{}", hexs(pk(rng, &["a", "b ", "{{ v }}  "])), hexs(pk(rng, &comments)))),
+                _ => items.push(format!("Z{}.{}", hexs(pk(rng, &["a", "b ", "\u{1}  ", "\u{1}"])), hexs(pk(rng, &comments)))),
             }
         }
         // close an open `if`
